@@ -234,3 +234,104 @@ Proof. vm_compute. repeat split; reflexivity. Qed.
 (* the witness engine is in the class of the theorem: only the overlap is outside *)
 Example C02_refuted_in_class : flow_ok ex_vee = true /\ hist_ok ex_vee (finit ex_vee) ex_stale_hist = false.
 Proof. vm_compute. split; reflexivity. Qed.
+
+(* ======================================================================
+   END STATE WITH WORKER FAILURES (Model/Flow2.v = Model/Flow.v + the event
+   `FFail k`: the k-th waiting task message is executed, the algorithm raises
+   after loading and before updating its data set, the worker answers
+   suc=False; Hand._res -> complete -> purge).
+
+   vocabulary (Model/Flow2.v, Proofs/Flow2Inv.v, Flow2Main.v):
+   wd g           GHOST list of the WITHDRAWN units (algorithm, target, contents
+                  held at that moment): a failed run of (x, T) records x and
+                  every algorithm the purge recursion reaches from x (descend),
+                  for target T, unless already recorded; a successful run of
+                  (y, T) removes (y, T).  Written by the two run events only,
+                  read by nothing.
+   reach C a x    a is upstream of x along declared inputs (a = x included)
+   lev c f t x v  the content x's algorithm computes for value v and target t
+                  from the LATEST stored content of its declared inputs
+   hist_ok2       as hist_ok: change events arrive at a quiescent pipeline, name
+                  algorithms without declared inputs and known targets, the first
+                  names all of them; ticks, successful and FAILED runs of any
+                  waiting message are unconstrained
+   ====================================================================== *)
+From DV Require Import Model.Flow2 Proofs.Flow2Inv Proofs.Flow2Main.
+
+(* PARTIAL: what is still missing with respect to the property text: change
+   events that overlap (refuted above), several values per algorithm /
+   value-level fan-out, feedback, analyses/regressions (flow_ok); a failure is an
+   algorithm that raises BEFORE it updates its data set (nothing stored).
+   At quiescence:
+   (1) every (target, algorithm) with NO withdrawn unit upstream (itself
+       included) -- every run it depends on succeeded since the last failure --
+       holds the from-scratch value eval_topo;
+   (2) every (target, algorithm) holds what its algorithm computes from the
+       latest stored content of its inputs, or has a withdrawn unit upstream;
+   (3) a withdrawn unit holds the content it held when it was withdrawn. *)
+Theorem C02_endstate_failures_partial : forall c, flow_ok c = true -> forall es,
+  hist_ok2 c (finit2 c) es = true ->
+  let g := frun_all2 c (finit2 c) es in
+  0 < ctr (fs g) -> quiescent c (fs g) = true ->
+  (forall x t, x < nnodes (fc c) -> In t (gtargets (fc c)) ->
+     (forall a, reach (fc c) a x -> wd_has (wd g) a t = false) ->
+     latest (sto (fs g)) t x = lookup (eval_topo c (rin (fs g)) t) x) /\
+  (forall x t, x < nnodes (fc c) -> In t (gtargets (fc c)) ->
+     latest (sto (fs g)) t x = lev c (fs g) t x x \/
+     exists a, reach (fc c) a x /\ wd_has (wd g) a t = true) /\
+  (forall x t k, In (x, t, k) (wd g) -> k = map (latest (sto (fs g)) t) (outs c x)).
+Proof. exact endstate_failures. Qed.
+Print Assumptions C02_endstate_failures_partial.
+
+(* the invariant behind it holds in every state of such a history *)
+Theorem C02_endstate_failures_invariant : forall c, flow_ok c = true -> forall es,
+  hist_ok2 c (finit2 c) es = true -> exists b, FInv2 c b (frun_all2 c (finit2 c) es).
+Proof. intros c OK es H. exact (hist_FInv2 c OK es (finit2 c) 0%Z (init_FInv2 c) H). Qed.
+Print Assumptions C02_endstate_failures_invariant.
+
+(* specialisation: on a history of Flow.v (no failed run) the extended model IS
+   Flow.v, nothing is withdrawn, and (1) is the conclusion of C02_endstate_partial *)
+Theorem C02_failures_extend_flow : forall c, flow_ok c = true -> forall es,
+  hist_ok c (finit c) es = true ->
+  let g := frun_all2 c (finit2 c) (map F1 es) in
+  0 < ctr (fs g) -> quiescent c (fs g) = true ->
+  fs g = frun_all c (finit c) es /\ wd g = [] /\
+  forall x t, x < nnodes (fc c) -> In t (gtargets (fc c)) ->
+    latest (sto (fs g)) t x = lookup (eval_topo c (rin (fs g)) t) x.
+Proof. exact endstate_failures_none. Qed.
+Print Assumptions C02_failures_extend_flow.
+
+(* a failed run stores nothing and creates no blob *)
+Theorem C02_failed_run_stores_nothing : forall c k f,
+  sto (ffail c k f) = sto f /\ blobs (ffail c k f) = blobs f /\ rin (ffail c k f) = rin f.
+Proof. intros c k f. unfold ffail. destruct (nth_error (cluster (sch f)) k); cbn; auto. Qed.
+Print Assumptions C02_failed_run_stores_nothing.
+
+(* non-vacuity: diamond a -> {b, c} -> d; c fails in the first event: c and d are
+   withdrawn (d although b reported a new value) and hold nothing; a and b have
+   nothing withdrawn upstream and hold the from-scratch value; after a second
+   event in which every run succeeds nothing is withdrawn and all is consistent *)
+Example C02_endstate_failures_example :
+  flow_ok ex_diamond = true /\
+  hist_ok2 ex_diamond (finit2 ex_diamond) ex_fail_hist = true /\
+  hist_ok2 ex_diamond (finit2 ex_diamond) ex_fail_hist2 = true /\
+  let g := frun_all2 ex_diamond (finit2 ex_diamond) ex_fail_hist in
+  0 < ctr (fs g) /\ quiescent ex_diamond (fs g) = true /\
+  wd g = [(2, 1, [CNone]); (3, 1, [CNone])] /\
+  latest (sto (fs g)) 1 1 = CVal 1 1 0 [CVal 0 1 1 []] /\
+  lookup (eval_topo ex_diamond (rin (fs g)) 1) 1 = CVal 1 1 0 [CVal 0 1 1 []] /\
+  consistent ex_diamond (fs g) = false /\
+  let g2 := frun_all2 ex_diamond (finit2 ex_diamond) ex_fail_hist2 in
+  quiescent ex_diamond (fs g2) = true /\ wd g2 = [] /\ consistent ex_diamond (fs g2) = true.
+Proof. vm_compute. repeat split; try reflexivity; try lia. Qed.
+
+(* upstream of b in the diamond: a and b only -- hypothesis (1) is satisfiable there *)
+Example C02_endstate_failures_clean_unit :
+  let g := frun_all2 ex_diamond (finit2 ex_diamond) ex_fail_hist in
+  forall a, reach (fc ex_diamond) a 1 -> wd_has (wd g) a 1 = false.
+Proof.
+  intros g a R. assert (E : a = 1 \/ a = 0).
+  { inversion R as [|a0 p x0 R1 Hp]; subst; [left; reflexivity|]. cbn in Hp. destruct Hp as [<-|[]].
+    inversion R1 as [|a1 p1 x1 R2 Hp1]; subst; [right; reflexivity|]. cbn in Hp1. destruct Hp1. }
+  destruct E as [->| ->]; vm_compute; reflexivity.
+Qed.
